@@ -2,6 +2,7 @@ package main
 
 import (
 	"fmt"
+	"math/big"
 	"regexp"
 	"strings"
 
@@ -146,9 +147,53 @@ func caseMix(g *Gen, s string) string {
 	return s
 }
 
+// boundaryLits: every signed / unsigned range boundary of every width, and its neighbours, in all four bases
+func boundaryLits() []string {
+	var out []string
+	seen := map[string]bool{}
+	add := func(s string) {
+		if !seen[s] {
+			seen[s] = true
+			out = append(out, s)
+		}
+	}
+	one := big.NewInt(1)
+	for _, w := range []uint{8, 16, 32, 64} {
+		half := new(big.Int).Lsh(one, w-1)
+		full := new(big.Int).Lsh(one, w)
+		for _, base := range []*big.Int{half, full} {
+			for d := int64(-1); d <= 1; d++ {
+				v := new(big.Int).Add(base, big.NewInt(d))
+				for _, neg := range []bool{false, true} {
+					sign := ""
+					if neg {
+						sign = "-"
+					}
+					add(sign + v.Text(10))
+					add(sign + "0x" + v.Text(16))
+					add(sign + "0X" + strings.ToUpper(v.Text(16)))
+					add(sign + "0b" + v.Text(2))
+					add(sign + "0o" + v.Text(8))
+					add(sign + "0" + v.Text(8))
+				}
+			}
+		}
+	}
+	return out
+}
+
 // lit: case index enumerates (type, literal, position); the literal sits alone, first, or second in the item
 func driverLit(c *Ctx) {
 	lits := append(append(append([]string{}, intLits...), floatLits...), otherLits...)
+	for _, l := range boundaryLits() {
+		dup := false
+		for _, x := range lits {
+			dup = dup || x == l
+		}
+		if !dup {
+			lits = append(lits, l)
+		}
+	}
 	idx := 0
 	for _, ty := range smlTypes {
 		if ty == "L" {
@@ -218,15 +263,19 @@ func driverSizes(c *Ctx) {
 			v = "5"
 		}
 		for form := 0; form < 4; form++ {
-			for lo := 0; lo <= 3; lo++ {
-				for hi := 0; hi <= 3; hi++ {
+			top := 3
+			if c.Tier == "thorough" {
+				top = 5
+			}
+			for lo := 0; lo <= top; lo++ {
+				for hi := 0; hi <= top; hi++ {
 					if (form == 0 || form == 1) && hi != 0 {
 						continue // forms [n] and [n..] have one number
 					}
 					if form == 2 && lo != 0 {
 						continue
 					}
-					for n := 0; n <= 3; n++ {
+					for n := 0; n <= top; n++ {
 						var sz string
 						switch form {
 						case 0:
